@@ -28,7 +28,9 @@ RULE = ("single-command cases: 0-6 parameters mixing value types, every listed s
         "has at least one parameter; distinct = distinct (project, configuration) pairs. Project cases: 1-3 files with 2-7 functions (commands and helpers) "
         "whose names are prefixes / suffixes / infixes of one another or repeat across files, channels on some of them, every order; every "
         "command of the project is judged. Types of values and of channel messages range over the README table and over types the resolver "
-        "cannot render (slices, arrays, fn pointers, impl/dyn Trait, unit, raw pointers, nested channels)")
+        "cannot render (slices, arrays, fn pointers, impl/dyn Trait, unit, raw pointers, nested channels). Configuration routes: a few commands x absent + eight "
+        "parameter cases x {CLI -c file, CLI with tauri.conf.json discovered in ./, ./src-tauri/, ../, library from_tauri_config, build-script entry "
+        "point with tauri.conf.json, with typegen.json}, both modes")
 TRUSTED = ["Spec/C04Obs.v: token-level reading of types.ts/commands.ts (Params declaration, z.object keys, the invoke argument) - a model of TypeScript, not proved",
            "Spec/C04TauriCase.v: Tauri's argument naming and the list of injected types, transcribed from the property text and tauri-macros; lowerCamelCase and snake_case cross-checked against heck 0.5 on every generated name",
            "python printer of the Rust source; its type abstraction is cross-checked against syn on every case"]
@@ -438,10 +440,108 @@ def impl_cli(cases):
     return vlib.pmap(one, cases)
 
 
+ROUTES = ["cli-c", "cli-cwd", "cli-src-tauri", "cli-parent", "lib-tauri", "build-tauri", "build-typegen"]
+
+
+def impl_route(cases):
+    """Every way a setting reaches the generator (each case names its route in case["route"]):
+      cli-c          generate -c cfg.json (standalone file, snake_case keys)
+      cli-cwd        generate, tauri.conf.json in the working directory
+      cli-src-tauri  generate, src-tauri/tauri.conf.json below the working directory
+      cli-parent     generate, ../tauri.conf.json (run from src-tauri/)
+      lib-tauri      GenerateConfig::from_tauri_config + generate_from_config
+      build-tauri    BuildSystem::generate_at_build_time() with tauri.conf.json in the project root
+      build-typegen  the same with typegen.json (standalone format) and no tauri.conf.json
+    (the library API with a standalone file is the ordinary harness stream)."""
+    import subprocess
+
+    def harness_route(payload):
+        r = subprocess.run([vlib.harness_bin("c04"), "route"], input=json.dumps(payload) + "\n", stdout=subprocess.PIPE,
+                           stderr=subprocess.DEVNULL, text=True, timeout=120, env=vlib.ENV)
+        lines = [l for l in r.stdout.splitlines() if l.startswith("{")]
+        return json.loads(lines[-1]) if lines else {"error": "driver died (exit %s)" % r.returncode}
+
+    def one(c):
+        res = {"id": c["id"], "heck": None, "abs": None}
+        route = c["route"]
+        dc = to_project(c)["default_case"]
+        with vlib.Sandbox("c04r") as sb:
+            for path, text in render_files(c):
+                sb.write("root/src-tauri/src/" + path, text)
+            src = sb.path("root/src-tauri/src")
+            for mode, key in (("none", "plain"), ("zod", "zod")):
+                out = sb.path("out-" + mode)
+                snake = {"project_path": src, "output_path": out, "validation_library": mode, "force": True}
+                camel = {"projectPath": src, "outputPath": out, "validationLibrary": mode, "force": True}
+                if dc is not None:
+                    snake["default_parameter_case"] = dc
+                    camel["defaultParameterCase"] = dc
+                tconf = json.dumps({"productName": "demo", "plugins": {"typegen": camel}})
+                for stale in ("root/tauri.conf.json", "root/src-tauri/tauri.conf.json", "root/typegen.json", "cfg.json"):
+                    if os.path.exists(sb.path(stale)):
+                        os.remove(sb.path(stale))
+                r = None
+                if route == "cli-c":
+                    sb.write("cfg.json", json.dumps(snake))
+                    r = sb.cli(["generate", "-c", sb.path("cfg.json"), "--force"], cwd=sb.path("root"))
+                elif route == "cli-cwd":
+                    sb.write("root/tauri.conf.json", tconf)
+                    r = sb.cli(["generate", "--force"], cwd=sb.path("root"))
+                elif route == "cli-src-tauri":
+                    sb.write("root/src-tauri/tauri.conf.json", tconf)
+                    r = sb.cli(["generate", "--force"], cwd=sb.path("root"))
+                elif route == "cli-parent":
+                    sb.write("root/tauri.conf.json", tconf)
+                    r = sb.cli(["generate", "--force"], cwd=sb.path("root/src-tauri"))
+                elif route == "lib-tauri":
+                    sb.write("root/tauri.conf.json", tconf)
+                    h = harness_route({"id": 0, "cwd": sb.path("root"), "kind": "lib-tauri", "conf": sb.path("root/tauri.conf.json")})
+                elif route == "build-tauri":
+                    sb.write("root/tauri.conf.json", tconf)
+                    h = harness_route({"id": 0, "cwd": sb.path("root/src-tauri"), "kind": "build"})
+                elif route == "build-typegen":
+                    sb.write("root/typegen.json", json.dumps(snake))
+                    h = harness_route({"id": 0, "cwd": sb.path("root/src-tauri"), "kind": "build"})
+                else:
+                    raise vlib.BuildError("unknown route " + route)
+                if r is not None:
+                    rc, text = r
+                    h = {"panic": text[-300:]} if (rc == 101 or "panicked at" in text) else ({"error": text[-300:]} if rc != 0 else {"ok": True})
+                if "panic" in h or "error" in h:
+                    res[key] = h
+                else:
+                    def rd(n):
+                        p = os.path.join(out, n)
+                        return open(p, encoding="utf-8").read() if os.path.exists(p) else None
+                    res[key] = {"types": rd("types.ts"), "commands": rd("commands.ts")}
+        return res
+    return vlib.pmap(one, cases)
+
+
+def route_cases(rng, thorough):
+    """a few commands x every route x the parameter case (absent + the eight)"""
+    S, O, C = VALUE_TYPES[0], OPTION_TYPES[0], CHANNEL_TYPES[0]
+    cmds = [[("user_id", VALUE_TYPES[1]), ("display_name", O), ("on_event", C), ("app", INJECTED_TYPES[1])],
+            [("_lead", S), ("a__b", S)],
+            [("only_ch", CHANNEL_TYPES[3])]]
+    if thorough:
+        cmds += [[(p["name"], (p["ty"], p["abs"])) for p in random_case(rng)["params"]] for _ in range(12)]
+    cases = []
+    for i, ps in enumerate(cmds):
+        for dc in [None] + CASES8:
+            if dc in (None, "camelCase") and any(set(n) == {"_"} for n, _ in ps):
+                continue
+            for route in ROUTES:
+                c = mk_case("route_cmd_%d" % i, ps, None, dc)
+                c["route"] = route
+                cases.append(c)
+    return cases
+
+
 def evaluate(cases, via="harness", in_domain=True):
     for i, c in enumerate(cases):
         c["id"] = i
-    obs = impl_harness(cases) if via == "harness" else impl_cli(cases)
+    obs = impl_harness(cases) if via == "harness" else impl_route(cases) if via == "route" else impl_cli(cases)
     sexps, idx = [], []
     for c, o in zip(cases, obs):
         if o.get("skipped") or "crash" in o or ("panic" in o and "plain" not in o):
@@ -588,6 +688,10 @@ def run(rep):
     rep.add("random-projects", evaluate(pj))
     pjc = [project_case(rng) for _ in range(600 if thorough else 40)]
     rep.add("random-projects-cli", evaluate(pjc, via="cli"))
+    # every way a setting reaches the generator
+    rc = route_cases(rng, thorough)
+    rep.extra.setdefault("distribution", {})["config-routes"] = {"cases": len(rc), "routes": ROUTES, "parameter_case": [None] + CASES8}
+    rep.add("config-routes", evaluate(rc, via="route"))
     # random, outside every class (where the theorems speak) and inside each class
     n = 40000 if thorough else 1500
     main = [random_case(rng) for _ in range(n)]
